@@ -23,7 +23,7 @@ ASSUMPTIONS = ["nvmon.ref exact reference (piece polynomials, truncated power-se
 FLOORS = {'quick': {'curve-ders': 1500, 'surface-ders': 600, 'alt-evaluator': 400, 'above-degree': 200, 'hodograph': 150,
                     'tangent': 150, 'normal': 60, 'hook:derivatives': 100},
           'thorough': {'curve-ders': 15000, 'surface-ders': 6000, 'alt-evaluator': 4000}}
-MANDATORY_TAGS = ['curve', 'surface', 'rational', 'u:knot', 'u:knot_full', 'u:end', 'order>degree', 'eval2', 'deg1-order>=2',
+MANDATORY_TAGS = ['tangent:int-parameter', 'curve', 'surface', 'rational', 'u:knot', 'u:knot_full', 'u:end', 'order>degree', 'eval2', 'deg1-order>=2',
                   'mixed-partial', 'unclamped', 'unnormalized']
 TECHNIQUE = ("runtime monitoring: exact-arithmetic post-condition (piece-polynomial derivatives / power-series division) on every "
              "derivatives() call, hodograph constructor and tangent/normal query of a class-enumerating seeded workload; "
@@ -303,7 +303,11 @@ def check(case, ctx):
                 if mu < 1e-6 * sc or mv < 1e-6 * sc:
                     ctx.count('tangent-degenerate-skipped')
                     continue
-                res = operations.tangent(o, [float(prm[0]), float(prm[1])], normalize=normalize)
+                # integer-valued parameters (domain corners, integer knots) are passed as ints by some callers: same query
+                qprm = [int(x) if float(x) == int(x) and rng.random() < 0.5 else float(x) for x in prm]
+                if any(isinstance(x, int) for x in qprm):
+                    ctx.tag('tangent:int-parameter')
+                res = operations.tangent(o, qprm, normalize=normalize)
                 wr = wratio(S) ** 2
                 wu = [x / mu for x in su] if normalize else su
                 wv = [x / mv for x in sv] if normalize else sv
@@ -320,7 +324,7 @@ def check(case, ctx):
                     if mc < 1e-6 * mu * mv or mc < 1e-6 * sc * sc:
                         ctx.count('normal-degenerate-skipped')
                         continue
-                    nres = operations.normal(o, [float(prm[0]), float(prm[1])], normalize=normalize)
+                    nres = operations.normal(o, qprm, normalize=normalize)
                     nv = list(nres[1])
                     wn = [x / mc for x in cr] if normalize else cr
                     tn = 1e-9 * wr * wr * (max(1.0, bound * bound / mc) if normalize else bound * bound)
@@ -339,11 +343,15 @@ def check(case, ctx):
         if pdim == 1:
             hod = operations.derivative_curve(o)
             hd = G.domains_of(hod)
+            # the hodograph is a function of the SAME parameter: C'(u) is read off it at u, so it lives on the domain of the curve
+            if not ctx.check(all(abs(a - b) <= 1e-12 * max(1.0, abs(b)) for a, b in zip(hd[0], doms[0])), 'hodograph/domain-differs',
+                             'derivative_curve(c) is defined on %r, the curve on %r (normalize_kv=%s, knot vector %s): evaluating it at a parameter '
+                             'of the curve does not give the derivative there' % (tuple(hd[0]), tuple(doms[0]), sd['normalize_kv'],
+                                                                                   'clamped' if G.kvs_of(o)[0][0] == G.kvs_of(o)[0][degs[0]] else 'unclamped'),
+                             what='hodograph'):
+                return
             for _, prm in prms:
-                t = hd[0][0] + (prm[0] - doms[0][0]) / (doms[0][1] - doms[0][0]) * (hd[0][1] - hd[0][0])
-                t = min(max(t, hd[0][0]), hd[0][1])
-                if prm[0] == doms[0][1]:
-                    t = hd[0][1]
+                t = min(max(prm[0], hd[0][0]), hd[0][1])
                 Sh = G.defn_of(hod)
                 if not so.clear_of_knots(Sh, (t,), 1e-9) or (t != prm[0] and not so.clear_of_knots(S, prm, 1e-6)):
                     continue
@@ -365,18 +373,16 @@ def check(case, ctx):
                              'for a surface with an interior knot of multiplicity = degree')
                     return
                 raise
+            for surf, nm in ((su_, 'u'), (sv_, 'v'), (suv_, 'uv')):
+                hd = G.domains_of(surf)
+                if not ctx.check(all(abs(a - b) <= 1e-12 * max(1.0, abs(b)) for d in range(2) for a, b in zip(hd[d], doms[d])),
+                                 'hodograph/domain-differs', 'derivative_surface(s)[%s] is defined on %r, the surface on %r (normalize_kv=%s)'
+                                 % (nm, hd, doms, sd['normalize_kv']), what='hodograph'):
+                    return
             for _, prm in prms:
                 for surf, kl, nm in ((su_, (1, 0), 'u'), (sv_, (0, 1), 'v'), (suv_, (1, 1), 'uv')):
                     hd = G.domains_of(surf)
-                    t = []
-                    for d in range(2):
-                        x = hd[d][0] + (prm[d] - doms[d][0]) / (doms[d][1] - doms[d][0]) * (hd[d][1] - hd[d][0])
-                        x = min(max(x, hd[d][0]), hd[d][1])
-                        if prm[d] == doms[d][1]:
-                            x = hd[d][1]
-                        if prm[d] == doms[d][0]:
-                            x = hd[d][0]
-                        t.append(x)
+                    t = [min(max(prm[d], hd[d][0]), hd[d][1]) for d in range(2)]
                     Sh = G.defn_of(surf)
                     if not so.clear_of_knots(Sh, t, 1e-9) or (tuple(t) != tuple(prm) and not so.clear_of_knots(S, prm, 1e-6)):
                         continue
